@@ -1068,7 +1068,12 @@ func (r *pyRange) Operator(operator Operator, operand pyObject) pyObject {
 }
 
 func (r *pyRange) Len() int {
-	return int((r.Stop - r.Start) / r.Step)
+	// The number of items Iter yields: none for an empty or descending range, and rounded up
+	// when the step doesn't divide the span.
+	if r.Stop <= r.Start || r.Step <= 0 {
+		return 0
+	}
+	return int((r.Stop - r.Start + r.Step - 1) / r.Step)
 }
 
 func (r *pyRange) Item(index int) pyObject {
